@@ -90,7 +90,9 @@ StateOK(o) ==
   /\ Set(o.st.routes) = Dom(aabs)
   /\ {<<o.st.named[i][1], o.st.named[i][2]>> : i \in 1..Len(o.st.named)} = {<<n, anamed[n]>> : n \in Dom(anamed)}
   /\ Set(o.st.hooks) = ahooks
+Outcomes == {"ok", "rejected:method", "rejected:name", "rejected:filter", "rejected:key"}
 PropFailsAt(o) ==
+  (IF o.outcome \notin Outcomes THEN {"Outcome"} ELSE {}) \cup
   UNION {AnswerFails(o.ans[i]) : i \in 1..Len(o.ans)}
   \cup (IF ~StateOK(o) THEN {"IndexAgree"} ELSE {})
 
